@@ -268,3 +268,34 @@ def register(M):
     @ext('jsonschema.validate')
     def _validate(interp, args, kw, node):
         return None
+
+    # ---- the re module on concrete strings (stdlib; the patterns are additionally analysed structurally in C19) ----
+    import re as _re
+
+    def _re_fn(name):
+        def f(interp, args, kw, node):
+            if not all(isinstance(a, (str, int)) for a in args):
+                raise AnalysisError(f're.{name} on a non-concrete string', node)
+            try:
+                r = getattr(_re, name)(*[str(a) if isinstance(a, ConfText) else a for a in args], **kw)
+            except _re.error as e:
+                raise AbsRaise(ExcVal('ValueError', (f're.error: {e}',)), node)
+            if name in ('match', 'search', 'fullmatch'):
+                return None if r is None else ReMatch(r)
+            return r
+        return f
+    for nm in ('match', 'search', 'fullmatch', 'sub', 'split', 'findall', 'escape'):
+        E['re.' + nm] = _re_fn(nm)
+
+
+class ReMatch:
+    def __init__(self, m):
+        self.m = m
+
+    def abs_truth(self):
+        return True
+
+    def abs_getattr(self, interp, name, node):
+        if name in ('group', 'groups', 'start', 'end', 'span'):
+            return PyCallable(lambda it, a, k, n: getattr(self.m, name)(*a), name)
+        raise AnalysisError(f'match.{name} not modelled', node)
